@@ -1,11 +1,13 @@
 ----------------------------- MODULE MCJobBind -----------------------------
 EXTENDS JobBind, Json
 D3 == {"d1", "d2", "d3"}
-ExeM == [d \in D3 |-> CASE d = "d1" -> "exeA" [] d = "d2" -> "exeB" [] d = "d3" -> "exeC"]
-NPM  == [d \in D3 |-> CASE d = "d1" -> 1 [] d = "d2" -> 4 [] d = "d3" -> 16]
-EnvM == [d \in D3 |-> CASE d = "d1" -> {"A=1"} [] d = "d2" -> {"B=2"} [] d = "d3" -> {}]
+D2 == {"d1", "d2"}
+ExeM == [d \in D3 |-> [c \in 0..1 |-> IF c = 1 THEN "exeZ" ELSE CASE d = "d1" -> "exeA" [] d = "d2" -> "exeB" [] d = "d3" -> "exeC"]]
+NPM  == [d \in D3 |-> [c \in 0..1 |-> IF c = 1 THEN 7 ELSE CASE d = "d1" -> 1 [] d = "d2" -> 4 [] d = "d3" -> 16]]
+EnvM == [d \in D3 |-> [c \in 0..1 |-> IF c = 1 THEN {"Z=9"} ELSE CASE d = "d1" -> {"A=1"} [] d = "d2" -> {"B=2"} [] d = "d3" -> {}]]
 DevNone == {}
 DevShared == {"SharedDescriptor"}
+DevFrozen == {"FrozenAtFirstUse"}
 View == sv
 Emit == PrintT(ToJson([from |-> sv, act |-> last', to |-> sv', obs |-> Obs']))
 =============================================================================
